@@ -26,7 +26,10 @@ PROPERTY = "C13"
 RULE = ("formulas from (a) parsing a rendered derivation tree whose counts span 1e-9..1e13 incl. >6-digit and "
         "boundary spellings (999999.5, 0.0000999999, 1.0000001), on the public and on a private table, (b) "
         "arithmetic histories (constructors from str/atom/dict/nested sequence/Formula, +, n*, += with n in "
-        "[1e-9, 1e12], counts kept in [1e-20, 1e20]; constructors also on the private table, change_table), "
+        "[1e-9, 1e12], counts kept in [1e-20, 1e20]; constructors also on the private table, change_table; the empty "
+        "formula from formula(''), formula(), formula(None), Formula(), formula([]), formula({}) with name/density "
+        "keywords, as operand, as receiver of += and made again afterwards: each new one prints '' (or its name), "
+        "parses back to nothing and is an object of its own), "
         "(c) mix_by_weight / mix_by_volume calls (Formula and string components, table=T in a third of the cases) and wt%/vol%/mass/"
         "layer mixture strings with quantity ratios up to 1e9, (d) long histories: 1-5 ionic sources (parsed on either "
         "table, arithmetic, mixtures) are built and round-tripped, then formulas covering every element ion of the "
@@ -308,12 +311,41 @@ def mult():
                                       6.25e-14, 1.23457e-11]))
 
 
+def Formula_unnamed(f):
+    """A copy of f without its name (so that str shows the composition)."""
+    g = env()["formula"](f)
+    g.name = None
+    return g
+
+
 def check_ops(ctx, value):
     history, nm = value[0], value[1]
     early = value[2] if len(value) > 2 else False
     case = {"kind": "ops", "ops": history, "name": nm, "early": early}
 
     def observer(step, vars_):
+        # an empty formula just made (formula(''), formula(), Formula(), formula([]) ...) prints '' (or its own
+        # name), parses back to nothing and is an object of its own, whatever happened to earlier empty formulas
+        if step.new is not None and step.kind == "empty":
+            f = vars_[step.new].f
+            c = dict(case, var=step.new, at_step=step.index)
+            want = step.op[2] if step.op[2] else ""
+            if str(f) != want or repr(f) != "formula('" + want + "')":
+                raise Violation("c13:empty:print", "step %d %r: a new empty formula prints %r / %r, expected %r"
+                                % (step.index, step.op, str(f), repr(f), want), c)
+            if tuple(f.structure) != () or f.atoms != {}:
+                raise Violation("c13:empty:not-empty", "step %d %r: a new empty formula has structure %r"
+                                % (step.index, step.op, f.structure), c)
+            for k, other in enumerate(vars_[:-1]):
+                if other.f is f:
+                    raise Violation("c13:empty:shared-object", "step %d %r: the new empty formula is the object "
+                                    "of variable %d" % (step.index, step.op, k), c)
+            back = env()["formula"](str(Formula_unnamed(f)))
+            if tuple(back.structure) != () or str(back) != "":
+                raise Violation("c13:empty:print", "step %d: formula('') gives %r (%r)"
+                                % (step.index, str(back), back.structure), c)
+        if not early:
+            return
         # print (and round-trip) every variable as soon as it exists or changes, so that later
         # operations work on operands that have already been printed
         i = step.new if step.new is not None else step.changed
@@ -328,7 +360,7 @@ def check_ops(ctx, value):
             roundtrip(ctx, vars_[i].f, dict(case, var=i, at_step=step.index, string=None), vars_[i].table,
                       "arithmetic-early", exp_tree=exp_tree)
     try:
-        vars_, flags, skipped = ops.interpret(history, observer=observer if early else None,
+        vars_, flags, skipped = ops.interpret(history, observer=observer,
                                               mag=(Fraction(1, 10 ** 20), Fraction(10 ** 20)))
     except Violation:
         raise
@@ -540,7 +572,7 @@ def task_tree(ctx, n, depth):
 
 def task_ops(ctx, n, steps=12):
     E = env()
-    strat = st.tuples(ops.history(E["pool"], max_steps=steps, mult=mult(), tables=True), nm_strategy(), st.booleans())
+    strat = st.tuples(ops.history(E["pool"], max_steps=steps, mult=mult(), tables=True, empties=True), nm_strategy(), st.booleans())
     ctx.search("ops", strat, check_ops, n)
 
 
